@@ -295,6 +295,8 @@ def units_B(tier):
             U.must_fail_twin(r, "vacuity.must_fail_twin", lambda: ST.unit_stream_cleanup(twin=True))
         return r
     us.append(("C08.entry_points.no_input_stream_left_behind", mks))
+    from props.common import wrap as _wrapS
+    _wrapS(us, "C08.ofstream_open.pointer_replaced_only_on_success", ST.unit_ofstream_open)
     from props import c17_control as _CT
     def _fv(twin=False):
         r_ = _CT.unit_findvar_subscripts(twin); r_.id = "C08.findvar.bad_subscript_reported_not_used"; return r_
